@@ -67,7 +67,7 @@ impl Profile {
 			Profile::C08 => tier.pick(450, 4000),
 			Profile::C09 => tier.pick(40, 300),
 			Profile::C10 => tier.pick(280, 3000),
-			Profile::C11 => tier.pick(70, 1000),
+			Profile::C11 => tier.pick(300, 4000),
 			Profile::C14 => tier.pick(60, 900),
 		}
 	}
